@@ -10,57 +10,66 @@ from pyvc import native                 # noqa: E402
 from contracts import c20 as K          # noqa: E402
 
 
+def guard_case(c):
+    import numpy as np
+    from pyvc import native
+    mod = native.repo_import(c["rel"])
+    C = getattr(mod, c["cls"])
+    if c["solver"] in C.SUPPORTED_SOLVERS:
+        return dict(status="skipped")
+    be = object.__new__(C)
+    called = []
+
+    def func(*a, **k):
+        called.append(1)
+        return np.zeros(1)
+    from pyrates.backend.base.base_backend import DDEHistory
+    args = (DDEHistory(np.zeros(1)),) if c["delayed"] else (np.zeros(1),)
+    try:
+        be._solve(solver=c["solver"], func=func, args=args, T=0.5, dt=0.1, dts=0.1, y0=np.zeros(1), t0=0, times=np.arange(5) * 0.1)
+        outcome = "returned a result"
+    except Exception as exn:
+        outcome = None if type(exn).__name__ == "PyRatesException" and not called else \
+            f"raised {type(exn).__name__} after {len(called)} vector-field call(s)"
+        if type(exn).__name__ != "PyRatesException" and not called:
+            outcome = None if "support" in str(exn).lower() else f"raised {type(exn).__name__}: {exn}"
+    if outcome:
+        return dict(status="violated", fails=[dict(clause="unsupported solver must raise before any call", observed=outcome, expected="PyRatesException, zero calls")])
+    return dict(status="ok")
+
+
 def guard_fallback(chk):
     cache = {}
 
     def run():
         if "r" in cache:
             return cache["r"]
-        import importlib
-        import numpy as np
-        fails, n, distinct = [], 0, set()
-        exc_mod = native.repo_import("pyrates/__init__.py") if False else None
-        table = [("pyrates/backend/base/base_backend.py", "BaseBackend"),
-                 ("pyrates/backend/torch/torch_backend.py", "TorchBackend"),
-                 ("pyrates/backend/jax/jax_backend.py", "JaxBackend"),
-                 ("pyrates/backend/fortran/fortran_backend.py", "FortranBackend")]
+        from rtc import runner
+        table = [("pyrates/backend/base/base_backend.py", "BaseBackend"), ("pyrates/backend/torch/torch_backend.py", "TorchBackend"),
+                 ("pyrates/backend/jax/jax_backend.py", "JaxBackend"), ("pyrates/backend/fortran/fortran_backend.py", "FortranBackend")]
         names = ["euler", "heun", "scipy", "diffrax", "rk45", "RK45", "julia_dde", "", "Euler", "bogus"]
-        for rel, cls in table:
-            try:
-                mod = native.repo_import(rel)
-            except Exception as exn:          # backend dependency missing: nothing to check for it
-                chk.notes.append(f"{cls}: not importable here ({type(exn).__name__})")
+        cs = [dict(rel=rel, cls=cls, solver=s, delayed=d) for rel, cls in table for s in names for d in (False, True)]
+        res = runner.run_cases(guard_case, cs, timeout=60)
+        fails, n, distinct = [], 0, set()
+        for c, r in zip(cs, res):
+            if r.get("status") == "skipped":
                 continue
-            C = getattr(mod, cls)
-            for s in names:
-                if s in C.SUPPORTED_SOLVERS:
-                    continue
-                for delayed in (False, True):
-                    be = object.__new__(C)
-                    called = []
-
-                    def func(*a, **k):
-                        called.append(1)
-                        return np.zeros(1)
-                    from pyrates.backend.base.base_backend import DDEHistory
-                    args = (DDEHistory(np.zeros(1)),) if delayed else (np.zeros(1),)
-                    n += 1
-                    distinct.add((cls, s, delayed))
-                    try:
-                        be._solve(solver=s, func=func, args=args, T=0.5, dt=0.1, dts=0.1, y0=np.zeros(1), t0=0,
-                                  times=np.arange(5) * 0.1)
-                        outcome = "returned a result"
-                    except Exception as exn:
-                        outcome = None if type(exn).__name__ == "PyRatesException" and not called else \
-                            f"raised {type(exn).__name__} after {len(called)} vector-field call(s)"
-                        if type(exn).__name__ != "PyRatesException" and not called:
-                            outcome = None if "support" in str(exn).lower() else f"raised {type(exn).__name__}: {exn}"
-                    if outcome:
-                        fails.append(dict(site=f"C20/{cls}._solve", clauses=[f"unsupported solver must raise before any call: {outcome}"],
-                                          input=dict(backend=cls, solver=s, delayed=delayed), features=dict(backend=cls, solver=s)))
+            n += 1
+            distinct.add((c["cls"], c["solver"], c["delayed"]))
+            if r.get("status") == "timeout":
+                r = dict(status="violated", fails=[dict(clause="unsupported solver must raise before any call",
+                                                        observed="no exception within 60 s (the call went on to integrate)", expected="PyRatesException")])
+            if r.get("status") == "crash":
+                chk.errors.append(f"guard case {c}: {r.get('error')}")
+                continue
+            if r.get("status") == "violated":
+                f = r["fails"][0]
+                fails.append(dict(site=f"C20/{c['cls']}._solve", clauses=[f["clause"] + ": " + str(f["observed"])],
+                                  input=dict(backend=c["cls"], solver=c["solver"], delayed=c["delayed"]), features=dict(backend=c["cls"], solver=c["solver"])))
         chk.add_bounded("native-solver-guards", n, len(distinct),
                         "every backend class x solver names outside its SUPPORTED_SOLVERS x (ODE | delayed args): _solve on a "
-                        "bare instance with a counting vector field must raise PyRatesException with zero calls", [dict(backend="JaxBackend", solver="rk45", delayed=True)])
+                        "bare instance with a counting vector field must raise PyRatesException with zero calls (each case in its own "
+                        "process, 60 s limit)", [dict(backend="JaxBackend", solver="rk45", delayed=True)])
         cache["r"] = fails
         return fails
     return run
